@@ -832,7 +832,16 @@ func ToEntry(n Node) (e *Entry) {
 					}
 					ms.mergedSubmodule[srcToIncluded] = true
 					ms.mergedSubmodule[includedToParent] = true
-					e.merge(a.Module.Prefix, nil, ToEntry(a.Module))
+					// The nodes of the submodule become nodes of the
+					// module as they are: what stands in the header of
+					// the submodule (its extension statements, belongs-to,
+					// revision, ...) is not theirs. merge hands the
+					// extensions and extras of the entry it is given on
+					// to every child, as befits a uses statement, so it
+					// is given a copy without them.
+					se := *ToEntry(a.Module)
+					se.Exts, se.Extra = nil, nil
+					e.merge(a.Module.Prefix, nil, &se)
 				case ms.ParseOptions.IgnoreSubmoduleCircularDependencies:
 					continue
 				default:
